@@ -6,6 +6,8 @@
 //!   wall-clock time;
 //! * a per-iterator count of repeat iterations that consumed no input, so
 //!   that a monitor can observe runs of zero-width iterations directly;
+//! * ablation switches that let a monitor test whether a recorded finding
+//!   explains a failure (off by default);
 //! * counters for the search shortcuts taken by `ReMatcher::matches`, so that
 //!   a monitor can show which shortcuts actually fired in the executions it
 //!   observed.
@@ -41,6 +43,7 @@ thread_local! {
     static LIMIT: Cell<u64> = const { Cell::new(0) };
     static ZERO_WIDTH_MAX: Cell<u64> = const { Cell::new(0) };
     static ZERO_WIDTH_LIMIT: Cell<u64> = const { Cell::new(0) };
+    static ABLATION: Cell<u32> = const { Cell::new(0) };
     static PROBES: [Cell<u64>; PROBE_COUNT] = const { [
         Cell::new(0), Cell::new(0), Cell::new(0), Cell::new(0),
         Cell::new(0), Cell::new(0), Cell::new(0),
@@ -111,6 +114,29 @@ pub fn set_zero_width_limit(limit: u64) {
 /// single repeat iterator on this thread.
 pub fn take_zero_width_max() -> u64 {
     ZERO_WIDTH_MAX.with(|m| m.replace(0))
+}
+
+/// Ablation switches: each one replaces a mechanism that a recorded finding
+/// blames by the behaviour the finding says would be correct. A monitor
+/// replays a witness with the switch on; if the witness still fails, the
+/// finding does not explain it. All switches are off unless `set_ablation`
+/// is called, so the code compiled with the guard on behaves like the code
+/// compiled with it off.
+pub const ABLATE_HISTORY_MEMO: u32 = 1;
+pub const ABLATE_EMPTY_ITERATION_REWRITE: u32 = 2;
+pub const ABLATE_EMPTIED_GROUPS: u32 = 4;
+pub const ABLATE_EMPTY_ITERATION_EXTENSION: u32 = 8;
+pub const ABLATE_PROGRESS_GUARD: u32 = 16;
+
+/// Switch ablations on (bit mask of the `ABLATE_*` constants; 0 = all off)
+/// for this thread.
+pub fn set_ablation(mask: u32) {
+    ABLATION.with(|a| a.set(mask));
+}
+
+#[inline]
+pub(crate) fn ablated(bit: u32) -> bool {
+    ABLATION.with(|a| a.get() & bit != 0)
 }
 
 #[inline]
